@@ -139,3 +139,34 @@ Proof. vm_compute. discriminate. Qed.
 Lemma ch_runs : sortMap ch_cs = SMOk [2; 1; 0] /\ plan ch_cs = POk ch_plan /\
   replay ch_plan ch_cat = Some (mkCat [1; 2; 0] [(1, 22, 2); (0, 5, 1)]).
 Proof. repeat split; vm_compute; reflexivity. Qed.
+
+(** * The counterexample with the two changes swapped: same cycle, the created parent comes first *)
+Definition or_cs : list change :=
+  [ AddTable (des 1) [mkFK 21 (des 1) (des 0)];
+    ModifyTable (des 0) [ModifyFK (mkFK 5 (cur 0) (cur 2)) (mkFK 5 (des 0) (des 1))] ].
+Definition or_plan : list change :=
+  [ AddTable (des 1) [];
+    ModifyTable (des 0) [ModifyFK (mkFK 5 (cur 0) (cur 2)) (mkFK 5 (des 0) (des 1))];
+    ModifyTable (des 1) [AddFK (mkFK 21 (des 1) (des 0))] ].
+
+Lemma or_wf : WF or_cs.
+Proof. wf_tac. Qed.
+Lemma or_cons : consistent cx_cat or_cs.
+Proof. cons_tac. Qed.
+Lemma or_ordered : repoint_ordered or_cs.
+Proof.
+  intros pre t tcs post from to E Hin Ha.
+  destruct pre as [|a [|b [|c pre]]]; simpl in E; inversion E; subst; simpl in *.
+  destruct Ha as [Ha|[]]. left. exact Ha.
+Qed.
+Lemma cx_not_ordered : ~ repoint_ordered cx_cs.
+Proof.
+  intros H.
+  specialize (H [] (des 0) [ModifyFK (mkFK 5 (cur 0) (cur 2)) (mkFK 5 (des 0) (des 1))]
+                [AddTable (des 1) [mkFK 21 (des 1) (des 0)]]
+                (mkFK 5 (cur 0) (cur 2)) (mkFK 5 (des 0) (des 1)) eq_refl (or_introl eq_refl)).
+  simpl in H. apply H. left. reflexivity.
+Qed.
+Lemma or_runs : sortMap or_cs = SMCycle /\ plan or_cs = POk or_plan /\
+  replay or_plan cx_cat = Some (mkCat [1; 0; 2] [(0, 5, 1); (1, 21, 0)]).
+Proof. repeat split; vm_compute; reflexivity. Qed.
